@@ -789,6 +789,25 @@ def m1_m4_scenes_image(ctx: Any, prog: Program) -> None:
             ctx.shape('C20.M1', False, mod, wsum[0], f'summary record v{ver}: a gate is not decided by the configuration (reader `{rs}`, writer `{ws}`)', func='save_scenes_image_sync', text=f'scenes.image summary v{ver}')
         else:
             ctx.check('C20.M1', rs == ws and rs != '', mod, wsum[0], f'summary record v{ver}: reader `{rs}`, writer `{ws}`', func='save_scenes_image_sync', text=f'scenes.image summary v{ver}')
+    # one pool index per sound of the entry, in list order: Entry.sounds is a list, parse_scenes_image returns the indexes in file order.  A set
+    # or a sort of the indexes (pool order depends on what EARLIER entries put into the pool) gives the list back permuted / without duplicates.
+    wl_ = [n for n in walk_no_nested(sf) if isinstance(n, ast.For) and "('summary', entry.checksum)" in U(n) and 'set_data' in U(n)]
+    for pc_ in [c for l_ in wl_ for c in ast.walk(l_) if isinstance(c, ast.Call) and dotted(c.func) == 'add_to_pool']:
+        ancs_ = _anc20(mod, pc_, wl_[0])
+        in_for = any(isinstance(a, ast.For) and (dotted(a.iter) or '').endswith('.sounds') for a in ancs_)
+        comp_ = next((a for a in ancs_ if isinstance(a, (ast.ListComp, ast.GeneratorExp, ast.SetComp, ast.DictComp))), None)
+        wrapped = [a for a in ancs_ if isinstance(a, ast.Call) and dotted(a.func) in ('sorted', 'set', 'frozenset', 'dict.fromkeys', 'reversed')]
+        if in_for and comp_ is None and not wrapped:
+            ctx.check('C20.M1', True, mod, pc_, 'one index per sound, in order', func='save_scenes_image_sync', text='scenes.image sounds written one by one in order')
+        elif comp_ is not None:
+            over_sounds = any((dotted(g.iter) or '').endswith('.sounds') for g in comp_.generators) and not any(g.ifs for g in comp_.generators)
+            keeps = isinstance(comp_, (ast.ListComp, ast.GeneratorExp)) and not wrapped and over_sounds
+            if isinstance(comp_, ast.SetComp) or wrapped or not over_sounds:
+                ctx.check('C20.M1', False, mod, comp_, f'save_scenes_image_sync writes the sound indexes of an entry as `{U(wrapped[0] if wrapped else comp_)[:60]}`: a set / sorted collection of pool indexes, not one index per sound '
+                          'in the order of Entry.sounds - the pool position of a sound depends on the entries written before, so parse_scenes_image returns the list permuted (and without its duplicates)',
+                          func='save_scenes_image_sync', text='scenes.image sounds written one by one in order')
+            else:
+                ctx.check('C20.M1', keeps, mod, comp_, 'one index per sound, in order', func='save_scenes_image_sync', text='scenes.image sounds written one by one in order')
     ok = "struct.pack('<Iii', entry.duration_ms, entry.last_speak_ms, len(entry.sounds))" in ss and "struct.pack('<Ii', entry.duration_ms, len(entry.sounds))" in ss and '[duration, last_speak, sound_count] = binformat.struct_read' in ps \
         and '[duration, sound_count] = binformat.struct_read' in ps and 'Entry(' in ps and "duration, last_speak, sounds" in ps.replace('\n', ' ').replace('    ', '')
     ctx.shape('C20.M1', ok, mod, sf, 'summary fields: duration, last speak (v3), sound count; constructor receives them in that order', func='save_scenes_image_sync', text='scenes.image summary linkage')
@@ -1565,6 +1584,24 @@ def m2_smd(ctx: Any, prog: Program) -> None:
     ctx.shape('C20.M2', ok, mod, exp, 'bone line: index "name" parent', func='Mesh.export', text='smd bone line')
     ok = 'math.radians(pit), math.radians(yaw), math.radians(rol)' in src and 'math.degrees(float(byt_pit)), math.degrees(float(byt_yaw)), math.degrees(float(byt_rol))' in psrc
     ctx.shape('C20.M2', ok, mod, exp, 'rotations: degrees -> radians on export, radians -> degrees on parse, same component order', func='Mesh.export', text='smd rotation units')
+    # every link of a vertex is written, in list order: the pair loop and the count use the vertex's own `.links` (directly or through a local
+    # alias) - a sorted / sliced / filtered copy drops or reorders links, which parse_smd reads back as it finds them
+    pair_w = [c for c in ast.walk(exp) if isinstance(c, ast.Call) and dotted(c.func) == 'file.write' and c.args and isinstance(c.args[0], ast.BinOp) and isinstance(c.args[0].left, ast.Constant)
+              and isinstance(c.args[0].left.value, bytes) and c.args[0].left.value.count(b'%') == 2 and b'%i' in c.args[0].left.value and b'%.6f' in c.args[0].left.value]
+    for pw in pair_w:
+        lp_l = next((a for a in _anc20(mod, pw, exp) if isinstance(a, ast.For)), None)
+        if lp_l is None:
+            continue
+        src_l: ast.AST = lp_l.iter
+        defs_l = [a.value for a in ast.walk(exp) if isinstance(a, ast.Assign) and isinstance(src_l, ast.Name) and any(isinstance(t, ast.Name) and t.id == src_l.id for t in a.targets)] if isinstance(src_l, ast.Name) else [src_l]
+        direct = bool(defs_l) and all(isinstance(d, ast.Attribute) and d.attr == 'links' and isinstance(d.value, ast.Name) for d in defs_l)
+        altered = [d for d in defs_l if isinstance(d, ast.Subscript) and isinstance(d.slice, ast.Slice) or (isinstance(d, ast.Call) and (dotted(d.func) or '') in ('sorted', 'filter', 'reversed', 'set', 'list'))
+                   or isinstance(d, (ast.ListComp, ast.GeneratorExp))]
+        if direct:
+            ctx.check('C20.M2', True, mod, pw, 'every link written', func='Mesh.export', text='smd every link of a vertex is written in order')
+        elif altered:
+            ctx.check('C20.M2', False, mod, altered[0], f'Mesh.export writes the links of a vertex from `{U(altered[0])[:60]}` on some path, not from the vertex\'s own list: links are dropped or reordered in the file, and parse_smd '
+                      'returns what it reads - a vertex with more links comes back with fewer, in another order', func='Mesh.export', text='smd every link of a vertex is written in order')
     ok = "link_count * 2 + 1 != len(links_raw)" in psrc and "b' %i %.6f' % (bone_indexes[bone], weight)" in src and 'len(vert.links)' in src
     ctx.shape('C20.M2', ok, mod, exp, 'link list: count followed by (bone, weight) pairs', func='Mesh.export', text='smd link list')
     # one line per BoneFrame / per vertex: the parser rebuilds each frame from the lines present (no carry-over), so the record write
@@ -1686,6 +1723,8 @@ def m5_tables(ctx: Any, prog: Program) -> None:
 
 
 MUTANTS: List[Dict[str, Any]] = [
+    {'id': 'smd_links_capped', 'file': 'smd.py', 'find': "                        for bone, weight in vert.links:\n", 'replace': "                        for bone, weight in sorted(vert.links, key=itemgetter(1))[:3]:\n", 'expect': 'C20.M2', 'note': 'round 12'},
+    {'id': 'scene_sounds_written_sorted', 'file': 'choreo.py', 'find': "        for sound in entry.sounds:\n            file.write(struct.pack('<i', add_to_pool(sound)))", 'replace': "        for sound_ind in sorted(add_to_pool(sound) for sound in entry.sounds):\n            file.write(struct.pack('<i', sound_ind))", 'expect': 'C20.M1', 'note': 'round 12'},
     {'id': 'cmdseq_skips_disabled_commands', 'file': 'cmdseq.py', 'find': "    for name, commands in sequences.items():\n        file.write(pad_string(name, 128))", 'replace': "    for name, commands in sequences.items():\n        commands = list(filter(None, commands))\n        file.write(pad_string(name, 128))", 'expect': 'C20.M1', 'note': 'round 11'},
     {'id': 'smd_frames_renumbered', 'file': 'smd.py', 'find': "        for time, frame in sorted(self.animation.items(), key=itemgetter(0)):", 'replace': "        for time, (_, frame) in enumerate(sorted(self.animation.items(), key=itemgetter(0))):", 'expect': 'C20.M2', 'note': 'round 11'},
     {'id': 'entry_parse_cached_beside_raw_block', 'file': 'choreo.py', 'find': "            self._data = Scene.parse_binary(BytesIO(data), string_pool)\n        return self._data", 'replace': "            self._parsed = Scene.parse_binary(BytesIO(data), string_pool)\n            return self._parsed\n        return self._data", 'expect': 'C20.M4'},
